@@ -40,7 +40,7 @@ def fmtOut (s : St) : Out → String
   | .ret code => s!"= {code}"
   | .invoke cb m evts =>
     let st := match s.mods[m]? with | some md => stLetter md.state | none => "?"
-    s!"INVOKE {cb} {handleOf s m}:{st}" ++ String.join (evts.map fun e => " " ++ fmtEvt s e)
+    s!"INVOKE {cb.name} {handleOf s m}:{st}" ++ String.join (evts.map fun e => " " ++ fmtEvt s e)
   | .free p => s!"free p{p}"
   | .close w => s!"close {w}"
   | .note t => t
@@ -145,10 +145,27 @@ def parse (s : St) (line : String) : Except String (Option Op) :=
   | ["ret", b] => .ok (some (.ret (b != "0")))
   | _ => .error "bad-op"
 
+def parseTok (tok : String) : BatchTok :=
+  match tok.splitOn ":" with
+  | ["tick"] => .tick
+  | ["!quit"] => .forceQuit
+  | ["ps", h] => .ps h
+  | [k, h, key] =>
+    match key.toNat? with
+    | some key =>
+      if k == "fd" then .src .fd h key .user else if k == "sgn" then .src .sgn h key .user
+      else if k == "pid" then .src .pid h key .user else if k == "path" then .src .path h key .user else .bad tok
+    | none => .bad tok
+  | ["tmr", h, key, r] =>
+    match key.toNat? with
+    | some key => .src .tmr h key (if r == "b" then .batchTimer else if r == "t" then .tbTimer else .user)
+    | none => .bad tok
+  | _ => .bad tok
+
 /-- process one line; returns new configuration and output lines -/
 def stepLine (c : Cfg) (line : String) : Cfg × List String :=
   if line.startsWith "@batch" then
-    ({ c with st := { c.st with batches := c.st.batches ++ [(Driver.words line).drop 1] } }, [])
+    ({ c with st := { c.st with batches := c.st.batches ++ [((Driver.words line).drop 1).map parseTok] } }, [])
   else if line.startsWith "@match " then
     match Driver.words line with
     | [_, p, t] => ({ c with st := { c.st with rx := (p, t) :: c.st.rx } }, [])
